@@ -86,3 +86,27 @@ class FnView:
             if include_exc and n.kind in ("stmt", "test", "for"):
                 stack.extend(self.cfg.handlers_of(n))
         return seen
+
+
+def expand_expr(mod, fn, expr, at_stmt=None, depth=0):
+    """All textual forms an expression can stand for: follows locals with a single definition in `fn`
+    and `self.<prop>` where <prop> is a @property of the enclosing class (each return value)."""
+    out = {norm(expr)}
+    if depth > 4:
+        return out
+    if isinstance(expr, ast.Name):
+        defs = [n for n in walk_no_nested(fn) if isinstance(n, ast.Assign) and len(n.targets) == 1
+                and isinstance(n.targets[0], ast.Name) and n.targets[0].id == expr.id]
+        if len(defs) == 1:
+            out |= expand_expr(mod, fn, defs[0].value, at_stmt, depth + 1)
+    if isinstance(expr, ast.Attribute) and isinstance(expr.value, ast.Name) and expr.value.id == "self":
+        cls = fn
+        while cls is not None and not isinstance(cls, ast.ClassDef):
+            cls = getattr(cls, "_parent", None)
+        if cls is not None:
+            for m in cls.body:
+                if isinstance(m, ast.FunctionDef) and m.name == expr.attr and any(norm(d) == "property" for d in m.decorator_list):
+                    for r in [x for x in walk_no_nested(m) if isinstance(x, ast.Return) and x.value is not None]:
+                        if not (isinstance(r.value, ast.Constant) and r.value.value is None):
+                            out |= expand_expr(mod, m, r.value, None, depth + 1)
+    return out
